@@ -35,6 +35,7 @@ type Exec struct {
 	prune       bool
 	clsStructs  map[*types.Named]bool
 	frameTs     []modTarget
+	constFV     map[*ssa.FreeVar]Value // captured variables no closure writes: constant during one invocation
 }
 
 func (e *Engine) NewExec(unit string) *Exec {
@@ -813,6 +814,12 @@ func (x *Exec) unop(fr *frame, s *State, in *ssa.UnOp) {
 	case token.MUL:
 		if g, ok := in.X.(*ssa.Global); ok {
 			if val, ok := x.E.readonlyGlobal(x, s, g); ok {
+				fr.vals[in] = val
+				return
+			}
+		}
+		if fv, ok := in.X.(*ssa.FreeVar); ok {
+			if val, ok := x.constFV[fv]; ok {
 				fr.vals[in] = val
 				return
 			}
@@ -1667,6 +1674,76 @@ func (x *Exec) assumeFrame(s *State, sorts []Sort) {
 		x.C.Assume(Implies(s.Reach, Forall([]Term{r, o}, Implies(And(App(SBool, "<", IntLit(0), r), App(SBool, "<", r, x.entry.Frontier), Not(inTargets(x.frameTs, r, o))),
 			Eq(Select(Select(s.Heaps[k], r, ObjSort(k)), o, k), Select(Select(x.entry.Heaps[k], r, ObjSort(k)), o, k))))))
 	}
+}
+
+// constCapture: the variable captured as free variable idx of closure fn is written by
+// no closure at all (only by the function that declares it), so it cannot change while
+// an invocation of fn runs (each invocation of the declaring function has its own cell;
+// data races are out of scope).
+func constCapture(fn *ssa.Function, idx int, depth int) bool {
+	parent := fn.Parent()
+	if parent == nil || depth > 3 {
+		return false
+	}
+	found := false
+	for _, b := range parent.Blocks {
+		for _, in := range b.Instrs {
+			mc, ok := in.(*ssa.MakeClosure)
+			if !ok || mc.Fn != fn {
+				continue
+			}
+			found = true
+			switch v := mc.Bindings[idx].(type) {
+			case *ssa.Alloc:
+				for _, r := range *v.Referrers() {
+					switch u := r.(type) {
+					case *ssa.DebugRef, *ssa.Store:
+						if st, ok := u.(*ssa.Store); ok && st.Addr != v {
+							return false
+						}
+					case *ssa.UnOp:
+						if u.Op != token.MUL {
+							return false
+						}
+					case *ssa.MakeClosure:
+						if !readsOnly(u.Fn.(*ssa.Function), u, v, 0) {
+							return false
+						}
+					default:
+						return false
+					}
+				}
+			case *ssa.FreeVar:
+				pi := -1
+				for k, pf := range parent.FreeVars {
+					if pf == v {
+						pi = k
+					}
+				}
+				if pi < 0 || !constCapture(parent, pi, depth+1) {
+					return false
+				}
+				for _, r := range *v.Referrers() {
+					switch u := r.(type) {
+					case *ssa.DebugRef:
+					case *ssa.UnOp:
+						if u.Op != token.MUL {
+							return false
+						}
+					case *ssa.MakeClosure:
+						if !readsOnly(u.Fn.(*ssa.Function), u, v, 0) {
+							return false
+						}
+					default:
+						return false
+					}
+				}
+			default:
+				return false
+			}
+		}
+	}
+	return found
 }
 
 // readsOnly: inside closure fn (created by mc), every use of the free variable
